@@ -46,6 +46,18 @@ def _shift(x, L, B, in_term=False):
     return x
 
 
+def module_of(g):
+    """Module path of a function (methods: the module of their impl block)."""
+    par = g.parent or ""
+    if (g.d.get("parent_kind") or "").startswith("Mod"):
+        return par
+    return par.rsplit("::", 1)[0] if "::" in par else par
+
+
+def same_module(f, g):
+    return module_of(f) == module_of(g)
+
+
 def default_pred(prog, caller):
     """Inline crate-local, non-public-API helpers of moderate size defined in the same module as the caller."""
     mod = caller.parent
